@@ -432,8 +432,8 @@ func Run(r *vk.Run) {
 	}
 	var jobs []job
 	id := 0
-	nChains := r.N(10, 80)
-	per := r.N(25, 120)
+	nChains := r.N(16, 150)
+	per := r.N(40, 150)
 	for ci := 0; ci < nChains; ci++ {
 		n := 3 + rng.Intn(6)
 		shape := ""
